@@ -42,6 +42,17 @@ Example C20_nonvacuous :
   is_actuated (V2 (3#10) (4#10)) (-1#2) = true /\ is_actuated (V2 (3#10) (3#10)) (1#2) = false.
 Proof. repeat split; try discriminate; reflexivity. Qed.
 
+(* ---- the executable judgement of the correspondence check is sound for the model, and transfers: whenever the
+   implementation's output agrees with the model's on a case, the judgement accepts it (for EVERY case, not only the
+   ones that were run).  Statements about coq/Check; proofs in coq/Proofs/Judge*.v ---- *)
+From BEI Require Check.C20c Proofs.JudgeC20P.
+Theorem C20_judgement_sound : forall v t, C20c.ok (C20c.uval v t, C20c.model (C20c.uval v t)) = 0%Z.
+Proof. exact JudgeC20P.C20_judgement_sound. Qed.
+
+Theorem C20_judgement_transfer : forall c o, C20c.agree (c, o) = true -> C20c.ok (c, o) = 0%Z.
+Proof. exact JudgeC20P.C20_judgement_transfer. Qed.
+
+
 Print Assumptions C20_dim.
 Print Assumptions C20_same_dim_identity.
 Print Assumptions C20_widen_then_narrow.
@@ -51,3 +62,5 @@ Print Assumptions C20_truthy_iff_some_component_nonzero.
 Print Assumptions C20_narrow_to_bool_is_truthiness.
 Print Assumptions C20_truthiness_preserved_by_widening.
 Print Assumptions C20_actuated_iff_magnitude.
+Print Assumptions C20_judgement_sound.
+Print Assumptions C20_judgement_transfer.
